@@ -1573,7 +1573,31 @@ class P(Prop):
                         c["api"] = st["api"]
                     yield dict(case, steps=steps[:i] + [c] + steps[i + 1:])
             return
-        if kind in ("op", "opl", "badk"):
+        if kind == "opl":
+            if not case["judge"]:
+                return
+            ins, outs = case["ins"], case["outs"]
+            if len(ins) > 1:
+                for j in range(len(ins)):
+                    yield dict(case, ins=ins[:j] + ins[j + 1:], outs=None if outs is None else outs[:j] + outs[j + 1:])
+            n, N = len(case["x"]), len(shape_weights(case["k"]))
+            if n > N or 1 < n < N:
+                for i in range(n):
+                    c = dict(case, feats={a: v[:i] + v[i + 1:] for a, v in case["feats"].items()})
+                    for nm in ("x", "y", "z"):
+                        c[nm] = case[nm][:i] + case[nm][i + 1:]
+                    if self._in_domain(c):
+                        yield c
+            for a in ins:
+                if a in case["feats"]:
+                    v = case["feats"][a]
+                    for i in range(len(v)):
+                        if v[i] not in (0, 1):
+                            c = dict(case, feats=dict(case["feats"], **{a: v[:i] + [0] + v[i + 1:]}))
+                            if self._in_domain(c):
+                                yield c
+            return
+        if kind in ("op", "badk"):
             return
         k = case.get("k", {"t": "gaussian", "p": case.get("w")})
         if k["t"] == "feat":
